@@ -1279,9 +1279,9 @@ impl Kanata {
                         }
                         CustomAction::LiveReloadNum(n) => {
                             let n = usize::from(*n);
-                            live_reload_requested = true;
                             match self.cfg_paths.get(n) {
                                 Some(path) => {
+                                    live_reload_requested = true;
                                     self.cur_cfg_idx = n;
                                     log::info!("Requested live reload of file: {}", path.display(),);
                                 }
